@@ -53,6 +53,13 @@ pub fn templates() -> Vec<&'static str> {
         "string([1].map(x, $0) == [$1] || $2)", "size([[1].filter(x, $0)].map(y, y || true))",
         "string(match [1].all(x, $0) { case bool: 'B', case _: 'other' })", "int(string(int($0)))",
         "[1].map(x, int(string($0)))", "int(f'{int($0)}')", "string(match {'a': $0}.b { case _: 'any' })",
+        // constant failures next to holes: folding must keep the laziness and absorption rules
+        "$0 && (1/0)", "$0 || (1/0)", "(1/0) || $0", "(1/0) && $0", "$0 ? (1/0) : $1", "$0 ? $1 : (1/0)", "[$0, 1/0][0]",
+        "$0 && [1][5]", "$0 || int('x')", "($0 && (1/0)) ? 1 : 2", "[1].map(x, $0 && (1/0))", "!($0 && (1/0))",
+        "$0 && $1 && (1/0)", "$0 || $1 || (1/0)", "($0 || (1/0)) && $1",
+        // macros nested inside collections inside macro bodies
+        "[1, 2].map(i, [i, [10, 20].filter(v, v > $0)])", "[1].map(x, {'id': x, 'tags': ['a', 'b'].map(t, t + $0)})",
+        "[1].map(x, [[2].map(y, [y, $0])])", "[[1].map(x, [x, $0])].map(z, z)",
 
     ];
     t.dedup();
@@ -234,7 +241,14 @@ fn has_pushed_time(bc: &[ByteCode]) -> bool {
     })
 }
 
-const CLOCK_SRCS: [&str; 8] = [
+const CLOCK_SRCS: [&str; 14] = [
+    // two and more call / macro-body blocks below a foldable call
+    "dyn(dyn(now()))",
+    "[1].map(x, dyn(timestamp()))[0]",
+    "[[1].map(x, now())[0]].map(y, y)[0]",
+    "timestamp(string(dyn(now())))",
+    "[1].map(x, [2].map(y, [now()][0])[0])[0]",
+    "{'a': [dyn(timestamp())]}.a[0]",
     "now()",
     "timestamp()",
     "[now()][0]",
